@@ -423,7 +423,7 @@ pub fn run(tier: Tier) -> i32 {
     let variants: &[(bool, bool)] = &[(false, true), (true, true), (false, false), (true, false)];
     let total = programs.len() * variants.len();
     rep.set("rule", json!(format!("All forests with <= {max_nodes} nodes and nesting <= {depth} over the items {{probe, <var v=1>, <var v=2 w=9>, <var v=${{v}}x>, swap <var v=$w w=$v>, forward reference, <reuse> of a probing template, <g v=5>..</g>, <g w=6>..</g>, <loop count=2>..</loop>, <if test=1>..</if>}}, each followed by a final probe and the forward-reference target, x template placement {{first, last}} x {{root <svg>, fragment}}; programs are enumerated smallest-first so every prefix of a program is itself explored. Oracle: reference interpreter for lexical scoping (innermost binding, g/reuse attribute scopes, var-in-content discarded at close, parallel assignment, undefined left verbatim; loop/if transparent) evaluated on the same item tree; state probe after each successful transform. Non-trivial = Ok, contains a scope or assignment, and either a deferral or >= 2 nodes.")));
-    rep.set("also", json!("Also: groups whose local is defined by a variable (<g w=\"$v\">) or in terms of the outer variable of the same name (<g v=\"${v}y\">), a <reuse> which is itself deferred, and four fixed scenarios (catch-all <defaults> next to <var>, group locals from expressions, evaluation where the group opens, nested shadowing)."));
+    rep.set("also", json!("Also: groups whose local is defined by a variable (<g w=\"$v\">) or in terms of the outer variable of the same name (<g v=\"${v}y\">), a <reuse> which is itself deferred, and four fixed scenarios (catch-all <defaults> next to <var>, group locals from expressions, evaluation where the group opens, nested shadowing). Second review round: values holding an undefined $name (read in another scope, through a reuse attribute, defined later), catch-all defaults next to reuse / reused group / group, and pairs of documents which differ only in whether an earlier element is retried (random draws)."));
     let st = run_space(total, |i| {
         let (tpl_last, root) = variants[i % variants.len()];
         check(&programs[i / variants.len()], tpl_last, root)
@@ -444,6 +444,13 @@ pub fn run(tier: Tier) -> i32 {
         ("defaults-are-not-assignments", r#"<svg><defaults><_ k="1"/></defaults><var v="2"/><text text="[$k|$v]"/></svg>"#, vec!["[$k|2]"]),
         ("group-local-from-expression", r#"<svg><var v="1"/><g k="{{$v + 1}}"><text text="[{{$k * 2}}]"/><var v="5"/><text text="[$k]"/></g></svg>"#, vec!["[4]", "[2]"]),
         ("group-local-evaluated-at-open", r#"<svg><var w="1"/><g v="$w"><var w="2"/><text text="[$v|$w]"/></g><text text="[$w]"/></svg>"#, vec!["[1|2]", "[1]"]),
+        // second review round
+        ("undefined-verbatim/rescanned-in-reader-scope", r#"<svg><var v="$w"/><g w="1"><text text="[$v]"/></g><g w="2"><text text="[$v]"/></g></svg>"#, vec!["[$w]", "[$w]"]),
+        ("undefined-verbatim/through-reuse-attribute", r##"<svg><specs><text id="t" text="[$k]"/></specs><reuse href="#t" k="$v" v="1"/></svg>"##, vec!["[$v]"]),
+        ("undefined-verbatim/chain", r#"<svg><var a="$b"/><var b="1"/><text text="[$a]"/></svg>"#, vec!["[$b]"]),
+        ("catch-all-defaults/on-reuse", r##"<svg><defaults><_ k="1"/></defaults><specs><text id="t" text="[$k]"/></specs><var k="2"/><reuse href="#t"/><text text="[$k]"/></svg>"##, vec!["[2]", "[2]"]),
+        ("catch-all-defaults/on-reused-group", r##"<svg><defaults><_ k="1"/></defaults><specs><g id="gg"><text text="[$k]"/></g></specs><var k="2"/><reuse href="#gg"/></svg>"##, vec!["[2]"]),
+        ("catch-all-defaults/on-group", r##"<svg><defaults><_ k="1"/></defaults><var k="2"/><g><text text="[$k]"/></g></svg>"##, vec!["[2]"]),
         ("nested-group-shadowing", r#"<svg><g v="1"><g v="2"><text text="[$v]"/></g><text text="[$v]"/></g><text text="[$v]"/></svg>"#, vec!["[2]", "[1]", "[$v]"]),
     ];
     let st = run_space(scenarios.len(), |i| {
@@ -463,6 +470,33 @@ pub fn run(tier: Tier) -> i32 {
         }
     });
     rep.absorb("scenarios", st);
+    // pairs which differ only in whether an unrelated earlier element had to be retried: same probes
+    let pairs: Vec<(&str, &str, &str)> = vec![
+        ("retry-consumes-random-draws", r##"<svg><g><rect xy="#z|h" wh="{{randint(1,9)}}"/><rect id="z" wh="3"/></g><var r="{{randint(1,1000)}}"/><text text="[$r]"/></svg>"##,
+            r##"<svg><g><rect id="z" wh="3"/><rect xy="#z|h" wh="{{randint(1,9)}}"/></g><var r="{{randint(1,1000)}}"/><text text="[$r]"/></svg>"##),
+        ("retry-consumes-random-draws-toplevel", r##"<svg><rect xy="#z|h" wh="{{randint(1,9)}}"/><rect id="z" wh="3"/><var r="{{randint(1,1000)}}"/><text text="[$r]"/></svg>"##,
+            r##"<svg><rect id="z" wh="3"/><rect xy="#z|h" wh="{{randint(1,9)}}"/><var r="{{randint(1,1000)}}"/><text text="[$r]"/></svg>"##),
+    ];
+    let st = run_space(pairs.len(), |i| {
+        let (name, a, b) = pairs[i];
+        let probes = |d: &str| match run_str(d, &Cfg::plain()) {
+            Outcome::Ok(o) => observed_probes(&o).unwrap_or_default(),
+            other => vec![other.brief()],
+        };
+        let (pa, pb) = (probes(a), probes(b));
+        let ok = pa == pb && !pa.is_empty();
+        CaseResult {
+            case_hash: hash64(&a),
+            nontrivial: ok,
+            outcome_hash: hash64(&pa),
+            executions: 2,
+            violation: if ok { None } else { Some(Violation { clause: "probe-depends-on-retry".into(), signature: format!("C15/scenario/{name}"), case: json!({"input": a, "scenario": name}), detail: format!("forward reference: {a}
+  probes {pa:?}
+same elements in document order: {b}
+  probes {pb:?}") }) },
+        }
+    });
+    rep.absorb("retry-pairs", st);
     rep.finish()
 }
 
